@@ -5,10 +5,11 @@
 -/
 namespace Cache
 
-abbrev Key  := Nat
-abbrev Val  := Nat
-abbrev Err  := Nat
-abbrev Time := Int
+-- Pure notations (not definitions): `omega`, `simp` and `decide` see `Nat` / `Int` directly.
+notation "Key" => Nat
+notation "Val" => Nat
+notation "Err" => Nat
+notation "Time" => Int
 
 /-- A stored entry: key, value (`none` = Go nil / zero value written as such), expiry (0 = never), usage metric. -/
 structure Entry where
